@@ -174,6 +174,9 @@ class GSolver:
             self.stats.unsat += 1
         else:
             self.stats.unknown += 1
+        from vlib import smtdump
+
+        smtdump.maybe_dump(self.s, assumptions, r)
         return r
 
 
